@@ -17,10 +17,10 @@ def fr(q):
     return Fraction(q[0], q[1])
 
 
-def model(src, linear, fresh=False):
-    key = (tuple(src), bool(linear))
+def model(src, linear, fresh=False, deterministic=False):
+    key = (tuple(src), bool(linear), bool(deterministic))
     if fresh or key not in _MODELS:
-        m = ir.Simultaneous.from_string("\n".join(src) + "\n", linear=bool(linear))
+        m = ir.Simultaneous.from_string("\n".join(src) + "\n", linear=bool(linear), **({"deterministic": True} if deterministic else {}))
         quiet(m.steady)
         m.solve()
         if fresh:
